@@ -21,7 +21,7 @@ func (r *Run) printSummary(w io.Writer) {
 	for _, v := range r.sortedViolations() {
 		fmt.Fprintf(w, "   CANDIDATE %s | %s | %s  x%d\n      model=%v choices=%v\n      stack=%s\n", v.Class, v.Label, v.Site, v.Count, v.Model, v.Choices, v.Stack)
 	}
-	for _, e := range r.engineErrors {
+	for _, e := range dedupe(r.engineErrors) {
 		fmt.Fprintf(w, "   ENGINE-ERROR %s\n", e)
 	}
 	for _, e := range r.inconcl {
@@ -282,11 +282,13 @@ func finish(id string, spec *PropSpec, tier string, seed int, runs []*Run, eng *
 	for _, l := range violLines {
 		fmt.Println(l)
 	}
+	problems = dedupe(problems)
 	if totalViol > 0 {
 		exit = 1
 	} else if len(problems) > 0 {
 		exit = 2
 	}
+	problems = dedupe(problems)
 	for _, p := range problems {
 		fmt.Fprintln(os.Stderr, "PROBLEM:", p)
 	}
@@ -332,6 +334,18 @@ func finish(id string, spec *PropSpec, tier string, seed int, runs []*Run, eng *
 	fmt.Fprintf(os.Stderr, "%s [%s]: harnesses=%d paths=%d obligations=%d discharged=%d queries=%d solver=%.1fs wall=%.1fs known=%d violations=%d problems=%d exit=%d\n",
 		id, tier, len(runs), states, oblTotal, oblDischarged, queries, solverS, time.Since(t0).Seconds(), len(knownHit), totalViol, len(problems), exit)
 	return exit
+}
+
+func dedupe(xs []string) []string {
+	seen := map[string]bool{}
+	var out []string
+	for _, x := range xs {
+		if !seen[x] {
+			seen[x] = true
+			out = append(out, x)
+		}
+	}
+	return out
 }
 
 func round2(f float64) float64 { return float64(int(f*100+0.5)) / 100 }
